@@ -412,6 +412,30 @@ def kinds_of(p, out=None):
     return out
 
 
+def hazards(p, out=None):
+    """structural features that are known crash triggers (used to bucket crashes by root cause)"""
+    out = set() if out is None else out
+    t = p[0]
+    if t == "cls":
+        for q in list(p[2]) + [q for _, q in p[3]]:
+            inner = q[1] if q[0] == "as" else q
+            if inner[0] == "or" and all(a[0] in ("lit", "val") for a in inner[1]):
+                out.add("cls-or-literal-child")
+            hazards(q, out)
+    elif t == "seq":
+        for q in p[2]:
+            hazards(q, out)
+    elif t == "map":
+        for _, q in p[1]:
+            hazards(q, out)
+    elif t == "or":
+        for q in p[1]:
+            hazards(q, out)
+    elif t == "as":
+        hazards(p[1], out)
+    return out
+
+
 def shape(p):
     """short root-cause label: top-level kind with first-level children kinds"""
     t = p[0]
@@ -612,7 +636,8 @@ def materialise(raw, uid):
     kinds = sorted(set().union(*[kinds_of(p) for p in pats]))
     return {"src": src, "cases": cases,
             "meta": {"uid": uid, "depth": max(depth_of(p) for p in pats), "kinds": kinds, "typed": raw["typed"],
-                     "shapes": [shape(p) for p in pats], "guards": [c[1] for c in raw["cases"]]}}
+                     "shapes": [shape(p) for p in pats], "guards": [c[1] for c in raw["cases"]],
+                     "hazards": sorted(set().union(*[hazards(p) for p in pats]))}}
 
 
 def draw_items(k, seed, parts, prefix, max_depth=3, nsubj=12):
